@@ -446,6 +446,11 @@ def gen_case(rng, k, stream):
             cfg["h_start"] = hs
         if rng.random() < 0.6:
             cfg["h_attr"] = {rng.choice(names + ["source", "sat"]): rng.choice(["H", "handler-v", "7"])}
+    if k % 6 == 1 and not any(t[0] == "t" and t[1] for t in toks):
+        # whatever the seed: a template without end fields, info_via='both', a time_coverage and a handler that knows only
+        # the start (another one than the name's) -- the end must be the handler's start + time_coverage
+        cfg.update({"via": "both", "coverage": rng.choice([3600 * 10**6, 6 * 3600 * 10**6 + 1000, 86400 * 10**6]),
+                    "h_start": us_of(gen_time(rng, False)), "h_end": None})
     case = {"id": k, "stream": stream, "tokens": merge_lits(toks), "user": user, "fill": fill,
             "s": us_of(s), "e": us_of(e), "cfg": cfg, "twist": None, "bad_names": []}
     if stream == "twist":
